@@ -43,6 +43,7 @@ type visInfo struct {
 
 // Exec verifies one function.
 type Exec struct {
+	havocSeq int // ids naming unknown heaps (State.HavocID)
 	P       *Program
 	Ctx     *Ctx
 	S       *Sorts
